@@ -171,7 +171,7 @@ def e2(run: Run, prog: Program):
                 f"mangling), which no class in the MRO of {C.name} ever assigns: "
                 f"AttributeError whenever this branch runs")
     run.count("E2", checked)
-    run.floor("E2 attribute reads checked", checked, 100)
+    run.floor("E2 attribute reads checked", checked, 100, hard=True)
     for _ in range(0):
         pass
     run.oblige("E2", "attrs:summary", True, nontrivial=False,
